@@ -148,23 +148,19 @@ EXPORT int _vsnwprintf_s_chk(wchar_t *restrict dest, rsize_t dmax,
         }
     }
 
-    if (unlikely(fmt == NULL)) {
-        *dest = L'\0';
-        invoke_safe_str_constraint_handler("vsnwprintf_s: fmt is null", NULL,
-                                           ESNULLP);
-        return -(ESNULLP);
-    }
-
     if (unlikely(dmax == 0)) {
-        *dest = L'\0';
         invoke_safe_str_constraint_handler("vsnwprintf_s: dmax is 0", NULL,
                                            ESZEROL);
         return -(ESZEROL);
     }
 
+    if (unlikely(fmt == NULL)) {
+        handle_werror(dest, dmax, "vsnwprintf_s: fmt is null", ESNULLP);
+        return -(ESNULLP);
+    }
+
     if (unlikely(safec_wfmt_has_n(fmt, 0))) {
-        invoke_safe_str_constraint_handler("vsnwprintf_s: illegal %n", NULL,
-                                           EINVAL);
+        handle_werror(dest, dmax, "vsnwprintf_s: illegal %n", EINVAL);
         return -(EINVAL);
     }
 
